@@ -65,7 +65,7 @@ func (sp *c02Spec) expectedView(trailersSupported bool) string {
 }
 
 func c02KeepField(k string) bool {
-	return strings.HasPrefix(k, "X-") || k == "Content-Type"
+	return strings.HasPrefix(k, "X-") || k == "Content-Type" || k == "Cache-Control" || k == "Pragma"
 }
 
 func c02ViewString(status int, h, tr http.Header, body []byte, end string) string {
@@ -200,6 +200,11 @@ func c02GenMode(s *verifh.Session) c02Mode {
 // not come back within 25 s (the client timeout is 10 s) is reported as stalled: the
 // implementation is spinning or blocked where no timeout reaches it.
 func c02Fetch(cl *Client, sp *c02Spec, mode c02Mode, url string, dir string, id int) (view string, extraOK bool) {
+	return c02FetchWith(cl, sp, mode, url, dir, id, nil)
+}
+
+// c02FetchWith: c02Fetch with a hook that configures the request (request-level options).
+func c02FetchWith(cl *Client, sp *c02Spec, mode c02Mode, url string, dir string, id int, hook func(*Request)) (view string, extraOK bool) {
 	type res struct {
 		view string
 		ok   bool
@@ -212,7 +217,7 @@ func c02Fetch(cl *Client, sp *c02Spec, mode c02Mode, url string, dir string, id 
 				ch <- res{pan: r}
 			}
 		}()
-		v, ok := c02FetchInner(cl, sp, mode, url, dir, id)
+		v, ok := c02FetchInner(cl, sp, mode, url, dir, id, hook)
 		ch <- res{view: v, ok: ok}
 	}()
 	select {
@@ -226,9 +231,12 @@ func c02Fetch(cl *Client, sp *c02Spec, mode c02Mode, url string, dir string, id 
 	}
 }
 
-func c02FetchInner(cl *Client, sp *c02Spec, mode c02Mode, url string, dir string, id int) (view string, extraOK bool) {
+func c02FetchInner(cl *Client, sp *c02Spec, mode c02Mode, url string, dir string, id int, hook func(*Request)) (view string, extraOK bool) {
 	extraOK = true
 	rq := cl.R()
+	if hook != nil {
+		hook(rq)
+	}
 	var w *c02Writer
 	var fpath string
 	switch mode.name {
